@@ -76,6 +76,7 @@ BUILTINS['zip'] = lambda *a: list(zip(*a))
 BUILTINS['frozenset'] = frozenset
 BUILTINS['isinstance'] = lambda v, t: isinstance(v, t) if isinstance(t, (type, tuple)) and all(isinstance(x, type) for x in (t if isinstance(t, tuple) else (t,))) else (_ for _ in ()).throw(Unsupported('isinstance with a model class'))
 TYPE_METHODS = {('dict', 'fromkeys'): dict.fromkeys}
+TYPE_VALUES = {'int': int, 'str': str, 'bytes': bytes, 'bytearray': bytearray, 'bool': bool, 'list': list, 'tuple': tuple, 'dict': dict, 'set': set}
 
 
 def _getattr(obj, name, *default):
@@ -127,6 +128,8 @@ class Evaluator:
         if isinstance(n, ast.Name):
             if n.id in self.env:
                 return self.env[n.id]
+            if n.id in TYPE_VALUES:
+                return TYPE_VALUES[n.id]         # a builtin type used as a value (converter argument, isinstance operand)
             if self.name_hook is not None:
                 return self.name_hook(n.id)
             if n.id in ('True', 'False', 'None'):
@@ -487,6 +490,14 @@ def class_call_hook(cls, extra=None, model=None):
                         base = ev.ev(f.value)
                     except Unsupported:
                         return NotImplemented
+                    if isinstance(base, Native) and getattr(base, '_repo_class', None) is not None and not callable(getattr(base, f.attr, None)):
+                        # a model object standing for an instance of a repository class: methods the model does not provide
+                        # itself are the repository's own, evaluated with the model as self
+                        target, bound = base._repo_class, base
+                        m = target.resolve(f.attr)
+                        if m is None or getattr(m.module, 'external', False):
+                            raise Unsupported('unknown method %s.%s' % (getattr(target, 'name', '?'), f.attr))
+                        return call_method(target, m, n, ev, bound)
                     if not isinstance(base, ClassRef):
                         return NotImplemented
                     target = base.info
